@@ -45,7 +45,7 @@ def cases(tier: str, seed: int) -> List[Dict[str, Any]]:
         out.append({"kind": "props", "E": E, "M": M})
     # histories: several formats used in sequence in one process (no state may leak between them)
     for seq in ([[4, 3], [5, 2], [4, 3]], [[2, 1], [8, 23], [2, 1], [5, 10]], [[8, 0], [3, 4], [8, 7], [3, 4]]):
-        out.append({"kind": "history", "E": seq[0][0], "M": seq[0][1], "seq": seq, "seed": seed})
+        out.append({"kind": "history", "E": seq[0][0], "M": seq[0][1], "seq": seq, "seed": seed, "fresh": True})
     nblk = 256
     for E, M in ([4, 3], [5, 2]):
         for b in range(nblk):
